@@ -140,7 +140,12 @@ def classify(f):
             if f["kind"] == "scan-nv-misses-insert":
                 got = [t[0] for t in o["tl"]]
                 init = [x[0] for x in r["init"]]
-                missed = [p["k"] for p in r["ops"] if p.get("op") in ("put", "uput") and p["st"] == "OK" and p["ret"] > o["inv"] and p["k"] not in got and p["k"] not in init]
+                # only keys of the interval the cursor covered can be "missed" (the TLA judgement, NvOK of TraceLin, looks at covered keys only)
+                def in_iv(k):
+                    lo_ok = o["le"] == "INF" or (k >= o["l"] if o["le"] == "INC" else k > o["l"])
+                    hi_ok = o["re"] == "INF" or (k <= o["r"] if o["re"] == "INC" else k < o["r"])
+                    return lo_ok and hi_ok
+                missed = [p["k"] for p in r["ops"] if p.get("op") in ("put", "uput") and p["st"] == "OK" and p["ret"] > o["inv"] and p["k"] not in got and p["k"] not in init and in_iv(p["k"])]
                 if missed and all(_start_position_insert(o, k) for k in missed):
                     return "iscan-misses-entry-inserted-at-its-start-position-after-open"
         return f["kind"]
